@@ -36,6 +36,7 @@ WITNESSES = [
     ("MC_Contingency", "MC_Contingency_quick", "W_PerfectTable", "PerfectTable: tables without misses and false alarms (C06)"),
     ("MC_Scripts", "MC_Scripts_exp", "W_ExpandPlaces", "ExpandSound: some observation is placed (C20)"),
     ("MC_Scripts", "MC_Scripts_exp", "W_ExpandHalfHour", "ExpandSound: an observation is placed at a fractional lead time (C20)"),
+    ("MC_Scripts", "MC_Scripts_win", "W_WindowEndsEarly", "WindowIsSpell: a dry spell that ends before the series does (C20)"),
     ("MC_Scripts", "MC_Scripts_acc", "W_AccWindow", "AccumulateIsPreAggSum on accepted option sets (C20)"),
 ]
 
